@@ -19,3 +19,8 @@ for e in k["fixed"]:
 k["fixed"] = out
 json.dump(k, open("/verif/known_findings.json", "w"), indent=1, ensure_ascii=False)
 for e in out: print(e[:110])
+
+# hook commits: every commit on main whose subject starts with "verif hook"
+hooks = [l.split(" ", 1)[0] for l in sh("git", "-C", "/repo", "log", "--reverse", "--format=%H %s", "main").splitlines() if l.split(" ", 1)[1].startswith("verif hook")]
+json.dump(hooks, open("/verif/tools/hook_commits.json", "w"), indent=1)
+print(len(hooks), "hook commits")
